@@ -29,6 +29,10 @@ pub struct Case {
     pub seq: Vec<usize>,
     /// file produced by the library's writer (false) or by RefCodec (true)
     pub refcodec: bool,
+    /// RefCodec file with 6 / 14 bytes of filler in front of every record (read through the index)
+    pub gapped: bool,
+    /// one record whose (last) part has this many points instead of the small sequence (0 = off)
+    pub big: usize,
     pub plan: Plan,
 }
 
@@ -40,7 +44,7 @@ impl Case {
             Plan::Fault { dev, k, persistent } => json!({"fault_on": (["shp", "shx"][*dev as usize]), "operation": k, "persistent": persistent}),
             Plan::ShortRead { kind, arg } => json!({"short_read": (["uniform", "one-op-1-byte", "one-op-all-but-last"][*kind as usize]), "arg": arg}),
         };
-        json!({"ty": self.ty.name(), "seq": self.seq, "refcodec": self.refcodec, "plan": plan})
+        json!({"ty": self.ty.name(), "seq": self.seq, "refcodec": self.refcodec, "gapped": self.gapped, "big": self.big, "plan": plan})
     }
     pub fn from_json(v: &Value) -> Option<Case> {
         let p = v.get("plan")?;
@@ -66,6 +70,8 @@ impl Case {
             ty: Ty::from_name(v.get("ty")?.as_str()?)?,
             seq: v.get("seq")?.as_array()?.iter().map(|x| x.as_u64().map(|u| u as usize)).collect::<Option<Vec<_>>>()?,
             refcodec: v.get("refcodec")?.as_bool()?,
+            gapped: v.get("gapped").and_then(|x| x.as_bool()).unwrap_or(false),
+            big: v.get("big").and_then(|x| x.as_u64()).unwrap_or(0) as usize,
             plan,
         })
     }
@@ -81,8 +87,38 @@ pub struct Fixture {
 }
 
 pub fn fixture(ty: Ty, seq: &[usize], refcodec: bool) -> Fixture {
+    fixture_ext(ty, seq, refcodec, false, 0)
+}
+
+pub fn fixture_ext(ty: Ty, seq: &[usize], refcodec: bool, gapped: bool, big: usize) -> Fixture {
     let red = reduced_set(ty);
-    let libs: Vec<Shape> = seq.iter().map(|i| to_lib(&red[*i])).collect();
+    let mut libs: Vec<Shape> = seq.iter().map(|i| to_lib(&red[*i])).collect();
+    if big > 0 {
+        libs = vec![to_lib(&red[0]), to_lib(&crate::structs::sized(ty, big))];
+    }
+    if gapped {
+        let recs: Vec<MRead> = libs.iter().map(from_lib).collect();
+        let mut body: Vec<u8> = vec![];
+        let mut shx_entries: Vec<u8> = vec![];
+        let mut ends = vec![];
+        for (i, r) in recs.iter().enumerate() {
+            body.extend(std::iter::repeat(0xEEu8).take(if i % 2 == 0 { 6 } else { 14 }));
+            let b = MBody::Shape { shape: r.shape.clone(), bbox: r.bbox.unwrap_or(codec::true_bbox(&r.shape)), with_m: true };
+            let mut f = vec![];
+            let content = codec::encode_content(&b, &mut f, 0, 0);
+            shx_entries.extend((((100 + body.len()) / 2) as i32).to_be_bytes());
+            shx_entries.extend(((content.len() / 2) as i32).to_be_bytes());
+            body.extend((i as i32 + 1).to_be_bytes());
+            body.extend(((content.len() / 2) as i32).to_be_bytes());
+            body.extend(content);
+            ends.push(100 + body.len());
+        }
+        let mut shp = codec::encode_header(((100 + body.len()) / 2) as i32, ty.code(), &[0.0; 8]);
+        shp.extend(body);
+        let mut shx = codec::encode_header((50 + 4 * recs.len()) as i32, ty.code(), &[0.0; 8]);
+        shx.extend(shx_entries);
+        return Fixture { shp, shx, recs, ends };
+    }
     let recs: Vec<MRead> = libs.iter().map(from_lib).collect();
     let (shp, shx);
     if refcodec {
@@ -311,7 +347,11 @@ pub fn judge(case: &Case, fx: &Fixture, base: &[Ans], base_logs: (&[Op], &[Op]),
 const UNIFORM: [u64; 11] = [1, 2, 3, 4, 5, 7, 8, 9, 15, 16, 17];
 
 fn run_fixture(ty: Ty, seq: &[usize], refcodec: bool, ctx: &mut Ctx, tick: &dyn Fn()) {
-    let fx = fixture(ty, seq, refcodec);
+    run_fixture_ext(ty, seq, refcodec, false, 0, ctx, tick)
+}
+
+fn run_fixture_ext(ty: Ty, seq: &[usize], refcodec: bool, gapped: bool, big: usize, ctx: &mut Ctx, tick: &dyn Fn()) {
+    let fx = fixture_ext(ty, seq, refcodec, gapped, big);
     // healthy traversals (with and without index) on logging devices
     let (bs, bx) = (Dev::with_data(fx.shp.clone()), Dev::with_data(fx.shx.clone()));
     let base = traverse(&fx, bs.clone(), Some(bx.clone()));
@@ -320,9 +360,34 @@ fn run_fixture(ty: Ty, seq: &[usize], refcodec: bool, ctx: &mut Ctx, tick: &dyn 
     let base_noshx = traverse(&fx, bs2.clone(), None);
     let log_s2 = bs2.log();
     let mut plans: Vec<(Plan, bool)> = vec![]; // (plan, traverse with index)
-    for len in 0..=fx.shp.len() {
+    let shp_cuts: Vec<usize> = if fx.shp.len() > 40_000 {
+        // large file: the last 48 bytes, around every power of two and every MiB, and a coarse sweep
+        let mut c: Vec<usize> = (1..=48).map(|j| fx.shp.len() - j).collect();
+        for k in 7..22 {
+            for d in 0..3usize {
+                c.push((1 << k) + d);
+                c.push((1usize << k) - d);
+            }
+        }
+        let mut m = 1usize << 20;
+        while m < fx.shp.len() + 200 {
+            for d in 0..160usize {
+                c.push(m + d);
+            }
+            m += 1 << 20;
+        }
+        c.extend((0..fx.shp.len()).step_by(4099));
+        c.sort_unstable();
+        c.dedup();
+        c.into_iter().filter(|l| *l <= fx.shp.len()).collect()
+    } else {
+        (0..=fx.shp.len()).collect()
+    };
+    for len in shp_cuts {
         plans.push((Plan::CutShp { len, with_shx: true }, true));
-        plans.push((Plan::CutShp { len, with_shx: false }, false));
+        if !gapped {
+            plans.push((Plan::CutShp { len, with_shx: false }, false));
+        }
     }
     for len in 0..=fx.shx.len() {
         plans.push((Plan::CutShx { len }, true));
@@ -334,22 +399,30 @@ fn run_fixture(ty: Ty, seq: &[usize], refcodec: bool, ctx: &mut Ctx, tick: &dyn 
         for k in 0..log_x.len() as u64 {
             plans.push((Plan::Fault { dev: 1, k, persistent }, true));
         }
-        for k in 0..log_s2.len() as u64 {
-            plans.push((Plan::Fault { dev: 0, k, persistent }, false));
+        if !gapped {
+            for k in 0..log_s2.len() as u64 {
+                plans.push((Plan::Fault { dev: 0, k, persistent }, false));
+            }
         }
+    }
+    if fx.shp.len() > 40_000 {
+        // large file: the per-operation fault sweep would be quadratic; keep cuts and short reads
+        plans.retain(|(p, _)| !matches!(p, Plan::Fault { .. }));
     }
     let nreads = log_s.iter().filter(|o| matches!(o, Op::Read { .. })).count() as u64;
     for c in UNIFORM {
         plans.push((Plan::ShortRead { kind: 0, arg: c }, true));
-        plans.push((Plan::ShortRead { kind: 0, arg: c }, false));
+        if !gapped {
+            plans.push((Plan::ShortRead { kind: 0, arg: c }, false));
+        }
     }
-    for j in 0..nreads {
+    for j in 0..nreads.min(if fx.shp.len() > 40_000 { 64 } else { 4000 }) {
         plans.push((Plan::ShortRead { kind: 1, arg: j }, true));
         plans.push((Plan::ShortRead { kind: 2, arg: j }, true));
     }
     ctx.bump("plans", plans.len() as u64);
     for (plan, with_index) in plans {
-        let case = Case { ty, seq: seq.to_vec(), refcodec, plan: plan.clone() };
+        let case = Case { ty, seq: seq.to_vec(), refcodec, gapped, big, plan: plan.clone() };
         let (shp, shx) = match &plan {
             Plan::CutShp { len, .. } => (Dev::quiet(fx.shp[..*len].to_vec()), Dev::quiet(fx.shx.clone())),
             Plan::CutShx { len } => (Dev::quiet(fx.shp.clone()), Dev::quiet(fx.shx[..*len].to_vec())),
@@ -407,7 +480,7 @@ fn selftest() -> (u64, u64) {
     let mut det = 0;
     // a cut in the middle of the second record
     let len = fx.ends[0] + 20;
-    let case = Case { ty, seq: seq.clone(), refcodec: false, plan: Plan::CutShp { len, with_shx: false } };
+    let case = Case { ty, seq: seq.clone(), refcodec: false, gapped: false, big: 0, plan: Plan::CutShp { len, with_shx: false } };
     let fresh = || traverse(&fx, Dev::quiet(fx.shp[..len].to_vec()), None);
     if !judge(&case, &fx, &base, (&ls, &lx), &fresh()).is_empty() {
         return (1, 0);
@@ -426,7 +499,7 @@ fn selftest() -> (u64, u64) {
     }
     // failing source: error swallowed
     let k = ls.iter().position(|o| o.call() == 1).unwrap() as u64 + 2;
-    let fcase = Case { ty, seq, refcodec: false, plan: Plan::Fault { dev: 0, k, persistent: false } };
+    let fcase = Case { ty, seq, refcodec: false, gapped: false, big: 0, plan: Plan::Fault { dev: 0, k, persistent: false } };
     let mut a = base.clone();
     a[1] = Ans::Iter(vec![Ok(0)], true);
     inj += 1;
@@ -447,10 +520,21 @@ pub fn check(tier: Tier) -> i32 {
             }
         }
     }
+    // (ty, seq, refcodec, gapped, big)
+    let mut units: Vec<(Ty, Vec<usize>, bool, bool, usize)> = units.into_iter().map(|(t, s, r)| (t, s, r, false, 0)).collect();
+    for ty in &types {
+        let k = reduced_set(*ty).len().min(3);
+        units.push((*ty, vec![0, 2 % k, 1 % k], true, true, 0));
+    }
+    for ty in [Ty::Multipoint, Ty::Polyline, Ty::PolygonZ] {
+        for big in tier.pick(vec![1500usize, 70001], vec![1500, 8193, 70001, 140001]) {
+            units.push((ty, vec![0], false, false, big));
+        }
+    }
     let deadline = Some(started + std::time::Duration::from_secs(tier.pick(50, 1700)));
     let (agg, capped) = par_blocks(units.len(), deadline, |b, ctx, tick| {
-        let (ty, seq, rc) = &units[b];
-        run_fixture(*ty, seq, *rc, ctx, tick);
+        let (ty, seq, rc, gapped, big) = &units[b];
+        run_fixture_ext(*ty, seq, *rc, *gapped, *big, ctx, tick);
     });
     let st = selftest();
     finish(
@@ -459,7 +543,7 @@ pub fn check(tier: Tier) -> i32 {
             tier,
             level: "fault_enumeration",
             engine: "valid files (library-written and RefCodec-written) read by the real ShapeReader from truncated, fault-injecting and short-reading devices",
-            rule: "per file: every truncation length 0..=len of the .shp (read with the intact .shx and without index), every truncation length of the .shx, every operation index k over the reads and seeks of a full traversal (open, iterate, read_nth_shape(i) and seek(i) for all i) x {one-shot, persistent} on each source, uniform short reads c in {1,2,3,4,5,7,8,9,15,16,17} and, for every read call j, 'call j returns 1 byte' / 'len-1 bytes'; files = types x 3 sequences (1-3 records of different sizes) x {library writer, RefCodec}; every case is non-trivial",
+            rule: "per file: every truncation length 0..=len of the .shp (read with the intact .shx and without index), every truncation length of the .shx, every operation index k over the reads and seeks of a full traversal (open, iterate, read_nth_shape(i) and seek(i) for all i) x {one-shot, persistent} on each source, uniform short reads c in {1,2,3,4,5,7,8,9,15,16,17} and, for every read call j, 'call j returns 1 byte' / 'len-1 bytes'; files = types x 3 sequences (1-3 records of different sizes) x {library writer, RefCodec}, plus RefCodec files with fillers in front of every record (read through the index), plus files whose second record has a part of 1500 / 70001 points (cuts: last 48 bytes, around every power of two and every MiB, every 4099th byte; short reads); every case is non-trivial",
             bounds: json!({"types": types.iter().map(|t| t.name()).collect::<Vec<_>>(), "files": units.len()}),
             exhaustive: true,
             assumptions: vec!["iteration is observed up to the first error (what happens after it is C07's business)".into()],
@@ -481,6 +565,6 @@ pub fn replay(v: &Value) -> Vec<(String, String)> {
     };
     // re-run the whole fixture and keep the verdicts of this plan only
     let mut ctx = Ctx::new();
-    run_fixture(case.ty, &case.seq, case.refcodec, &mut ctx, &|| {});
+    run_fixture_ext(case.ty, &case.seq, case.refcodec, case.gapped, case.big, &mut ctx, &|| {});
     ctx.findings.into_iter().map(|(k, f)| (k, f.detail)).collect()
 }
